@@ -44,7 +44,7 @@ def cases(tier, seed):
                 out.append({"kind": "perm", "cls": f"perm:m{m}", "m": m, "n": n, "pi": list(pi), "seed": seed})
     idx = 0
     for cls in ("gauss", "diag_dominant", "ties", "int", "scaled_small", "scaled_big", "pure_imag", "sparse_pattern", "layout",
-                "herm_gram", "herm_indef_posdiag", "herm_generic", "herm_near_singular_leading_block", "real_symmetric", "hollow", "herm_hollow"):
+                "herm_gram", "herm_indef_posdiag", "herm_generic", "herm_near_singular_leading_block", "real_symmetric", "hollow", "herm_hollow", "near_tie_pivot", "lower_tri_interchanges", "lower_banded_interchanges"):
         for rep in range(6 if tier == "quick" else 120):
             out.append({"kind": "random", "cls": "random:" + cls, "entry": cls, "idx": idx, "seed": seed,
                         "maxd": 8 if tier == "quick" else 20})
@@ -318,7 +318,7 @@ def _random(spec, ctx, R):
         A = gen.entries(rng, "sparse", m, n) + refq.diagq(1.0 + rng.random(min(m, n)), m, n)
     elif cls == "layout":
         A = gen.layout(refq.randq(rng, m, n), str(rng.choice(gen.LAYOUTS)))
-    elif cls in ("herm_gram", "herm_indef_posdiag", "herm_generic", "herm_near_singular_leading_block", "real_symmetric", "hollow", "herm_hollow"):
+    elif cls in ("herm_gram", "herm_indef_posdiag", "herm_generic", "herm_near_singular_leading_block", "real_symmetric", "hollow", "herm_hollow", "near_tie_pivot", "lower_tri_interchanges", "lower_banded_interchanges"):
         # square HERMITIAN inputs (Gram matrices, indefinite with a positive diagonal, generic, a leading 2x2 block that is nearly singular, real
         # symmetric): symmetric structure does not excuse an elimination from its row search - the largest entry of a column need not be on
         # the diagonal, and |multiplier| <= 1 / P A = L U must hold like for any other matrix
@@ -328,6 +328,25 @@ def _random(spec, ctx, R):
             A = refq.symmetrize(refq.matmul(refq.herm(B), B))
         elif cls == "herm_generic":
             A = refq.symmetrize(B + refq.herm(B))
+        elif cls in ("lower_tri_interchanges", "lower_banded_interchanges"):
+            # lower triangular / lower banded input whose diagonal is small against the entries below it: the row in pivot position is exactly zero
+            # to the right of the diagonal, and the row search replaces it by a row that is not
+            c = refq.fa(refq.randq(rng, n, n)).copy() * np.tril(np.ones((n, n)))[..., None]
+            if cls == "lower_banded_interchanges":
+                c = c * (np.subtract.outer(np.arange(n), np.arange(n)) <= 2)[..., None]
+            c[np.arange(n), np.arange(n)] *= 0.3
+            A = refq.qa(c)
+        elif cls == "near_tie_pivot":
+            # NEAR tie in the row search (not a tie): the entry on the diagonal is smaller than the column maximum by a relative 1e-5 .. 1e-12,
+            # at step 0 (first column) and, through a decoupled leading entry, at step 1: the interchange must still happen (|multiplier| <= 1)
+            A = refq.randq(rng, n, n) * 0.4
+            d_ = float(rng.choice([4e-6, 3e-7, 1e-9, 1e-12, 9e-6]))
+            step = int(rng.integers(0, 2)) if n >= 3 else 0
+            if step == 1:
+                A[0, 1:] = np.quaternion(0, 0, 0, 0); A[1:, 0] = np.quaternion(0, 0, 0, 0); A[0, 0] = np.quaternion(3, 0, 0, 0)
+            k_ = int(rng.integers(step + 1, n))
+            A[step, step] = refq.unit_quats(rng, 1)[0] * (2.0 * (1.0 - d_))
+            A[k_, step] = refq.unit_quats(rng, 1)[0] * 2.0
         elif cls in ("hollow", "herm_hollow"):       # exactly zero diagonal: every leading entry met without pivoting is zero or fill-in
             c = refq.fa(B if cls == "hollow" else refq.symmetrize(B + refq.herm(B))).copy()
             c[np.arange(n), np.arange(n)] = 0.0
